@@ -159,6 +159,7 @@ class _Norm:
     def __init__(self, fn: ast.AST):
         self.fn = fn
         self.changed = False
+        self._extra_inside = None
 
     def block(self, stmts: List[ast.stmt]) -> List[ast.stmt]:
         stmts = list(stmts)
@@ -205,6 +206,13 @@ class _Norm:
                         i = j + 1
                         continue
                 if j < len(stmts) and isinstance(stmts[j], ast.For):
+                    part = self.partition(stmts, i, j, x, kind)
+                    if part is not None:
+                        out.extend(part)
+                        self.changed = True
+                        i = j + 1
+                        continue
+                if j < len(stmts) and isinstance(stmts[j], ast.For):
                     loop = stmts[j]
                     comp = self.loop(loop, x, kind)
                     if comp is not None and x not in _names(loop.iter):
@@ -224,7 +232,53 @@ class _Norm:
             i += 1
         return out
 
+    def partition(self, stmts, i: int, j: int, x: str, kind: str):
+        """X = []; Y = []; for T in IT: (if C: X.append(A) else: Y.append(B))
+        ==>  X = [A for T in IT if C]; Y = [B for T in IT if not C]"""
+        loop = stmts[j]
+        if loop.orelse or not loop.body or not isinstance(loop.body[-1], ast.If) or \
+                not loop.body[-1].orelse:
+            return None
+        br = loop.body[-1]
+        others = [(k, _empty_init(stmts[k])) for k in range(i + 1, j)]
+        others = [(k, o) for k, o in others if o is not None and o[1] == kind]
+        if len(others) != 1:
+            return None
+        k, (y, _) = others[0]
+        if any(x in _names(stmts[m]) or y in _names(stmts[m]) for m in range(i + 1, j) if m != k):
+            return None
+        if x in _names(loop.iter) or y in _names(loop.iter):
+            return None
+        for first, second in ((x, y), (y, x)):
+            bx = loop.body[:-1] + [ast.If(br.test, br.body, [])]
+            by = loop.body[:-1] + [ast.If(ast.UnaryOp(ast.Not(), br.test), br.orelse, [])]
+            l1 = ast.For(loop.target, loop.iter, bx, [])
+            l2 = ast.For(loop.target, loop.iter, by, [])
+            ast.copy_location(l1, loop), ast.copy_location(l2, loop)
+            save = self._extra_inside
+            self._extra_inside = loop
+            try:
+                c1, c2 = self.loop(l1, first, kind), self.loop(l2, second, kind)
+            finally:
+                self._extra_inside = save
+            if c1 is not None and c2 is not None:
+                new = []
+                for name, comp, init in ((first, c1, stmts[i] if first == x else stmts[k]),
+                                         (second, c2, stmts[k] if first == x else stmts[i])):
+                    a = ast.Assign([ast.Name(name, ast.Store())], comp)
+                    if isinstance(init, ast.AnnAssign):
+                        a = ast.AnnAssign(ast.Name(name, ast.Store()), init.annotation, comp, 1)
+                    new.append(ast.fix_missing_locations(ast.copy_location(a, loop)))
+                rest = [stmts[m] for m in range(i + 1, j) if m != k]
+                return rest + new
+        return None
+
     def _loads_outside(self, loop: ast.AST) -> Set[str]:
+        if getattr(self, '_extra_inside', None) is not None:
+            inside = {id(n) for n in ast.walk(loop)} | \
+                {id(n) for n in ast.walk(self._extra_inside)}
+            return {n.id for n in ast.walk(self.fn) if isinstance(n, ast.Name)
+                    and isinstance(n.ctx, ast.Load) and id(n) not in inside}
         inside = {id(n) for n in ast.walk(loop)}
         return {n.id for n in ast.walk(self.fn) if isinstance(n, ast.Name)
                 and isinstance(n.ctx, ast.Load) and id(n) not in inside}
@@ -242,7 +296,7 @@ class _Norm:
         # loop targets and body locals die with the loop (flow-insensitive: never read outside)
         if (_targets(loop.target) | locs) & self._loads_outside(loop):
             return None
-        conds = [_simplify_not(c) for c in conds]
+        conds = [nnf(_simplify_not(c)) for c in conds]
         if len(conds) > 1:
             flat: List[ast.AST] = []
             for c in conds:
